@@ -23,6 +23,7 @@ pub fn def() -> PropDef {
         thorough_runs: 2_400_000,
         block: BLOCK,
         flavours: &["tokio"],
+        outcome: None,
     }
 }
 
